@@ -73,6 +73,11 @@ class RefServer(object):
         self.step_i = 0
         self.encrypted_rx_bytes = 0
         self.sent_log = []           # (name, fields) of packets we sent
+        self.pings = []              # payloads of status pings received
+        self.status_requests = 0
+        self.token_back = None       # verify token as decrypted by us
+        self.server_id = None
+        self.version_unknown = False
 
     # -- transport ----------------------------------------------------------
     def on_connect(self, conn):
@@ -172,7 +177,7 @@ class RefServer(object):
             if pid == 0:
                 if r.left:
                     self.errors.append('status request with payload')
-                self.status_requests = getattr(self, 'status_requests', 0) + 1
+                self.status_requests += 1
                 if self.close_after == 'request':
                     self.close()
                     return
@@ -184,7 +189,7 @@ class RefServer(object):
                 t = r.sint(8)
                 if r.left:
                     self.errors.append('ping: trailing bytes')
-                self.pings = getattr(self, 'pings', []) + [t]
+                self.pings.append(t)
                 if self.status_cfg.get('pong', True):
                     self.send('status.pong', codec.sint(t, 8), pid=1)
                 if self.close_after == 'pong':
